@@ -233,7 +233,7 @@ theorem code_expireAccessTokenChunks (sd : Go.SessData) (fuel N : Nat) (hN : N <
 /-- a state that meets the hypotheses (premises satisfiable): a request without chunk cookies, a codec that prepends one byte -/
 def exampleSD : Go.SessData :=
   ⟨true, [], fun _ => none, 86400, fun t => 'z' :: t, fun t => t.drop 1, ['m'],
-   Oidc.Generated.Code.accessTokenCookie, Oidc.Generated.Code.refreshTokenCookie, [], [], []⟩
+   Oidc.Generated.Code.accessTokenCookie, Oidc.Generated.Code.refreshTokenCookie, [], [], [], fun _ => (['i','d'], none)⟩
 
 example : exampleSD.accessSession = Oidc.Generated.Code.accessTokenCookie ∧ exampleSD.decompress (exampleSD.compress ['a','b']) = ['a','b'] ∧
     exampleSD.compress ['a','b'] ≠ [] ∧ Oidc.CodeRefine.chunkIsNew Oidc.Generated.Code.accessTokenCookie exampleSD 0 = true := by
